@@ -856,6 +856,10 @@ func (t *tokenizer) skipCommentsHandler() (bool, error) {
 	case '/':
 		return true, t.skipSingleLineComment()
 	case '*':
+		// Consume the '*' so that it cannot double as the start of the closing "*/".
+		if _, err := t.read(); err != nil {
+			return false, err
+		}
 		return true, t.skipBlockComment()
 	default:
 		return false, nil
